@@ -763,4 +763,78 @@ theorem print_config_lists_every_option (c : Config) (hkeys : c.map (·.1) = opt
 
 example : (defaultWithStyleEdition .e2015).map (·.1) = optionNames := by decide +kernel
 
+/-! ## Release channel -/
+
+/-- `is_stable_option_and_value`: everything is accepted on the nightly channel; on the stable
+channel exactly the stable options with a stable variant. -/
+theorem is_stable_option_and_value_spec (env : Env) (k : String) (v : Val) :
+    isStableOptionAndValue env k v = (env.nightly || (stableOf k && variantStable k v)) := by
+  obtain ⟨n⟩ := env
+  unfold isStableOptionAndValue
+  cases n <;> cases stableOf k <;> cases variantStable k v <;> rfl
+
+/-- On the stable channel a config file cannot change an unstable option: whatever the file says,
+every option marked unstable in the generated table keeps the entry of the default configuration
+(value and provenance) after `fill_from_parsed_config` — including the successors
+`imports_granularity` / `show_parse_errors` of the (unstable) aliases.  (`--config` is not gated:
+`same_value_stable_channel_counterexample`.) -/
+theorem stable_channel_gating (se : StyleEdition) (parsed : List (String × Val)) (k : String)
+    (hk : stableOf k = false) :
+    getE (fillFromParsedConfig ⟨false⟩ (defaultWithStyleEdition se) parsed) k =
+      getE (defaultWithStyleEdition se) k := by
+  have hwidth : ∀ w ∈ widthKeys, stableOf w = true := by decide +kernel
+  have hkw : k ∉ widthKeys := fun h => by rw [hwidth k h] at hk; cases hk
+  have hal : stableOf "merge_imports" = false ∧ stableOf "hide_parse_errors" = false ∧
+      stableOf "fn_args_layout" = true ∧ stableOf "fn_params_layout" = true := by decide +kernel
+  have hfold : ∀ a, stableOf a = false →
+      getE (optionNames.foldl (fillStore ⟨false⟩ parsed) (defaultWithStyleEdition se)) a =
+        getE (defaultWithStyleEdition se) a := by
+    intro a ha
+    rw [getE_fillFold]
+    split
+    · unfold fillEntry
+      cases parsed.lookup a with
+      | none => rfl
+      | some v =>
+        have : isStableOptionAndValue ⟨false⟩ a v = false := by
+          rw [is_stable_option_and_value_spec, ha]; rfl
+        simp [this]
+    · rfl
+  have hws : ∀ a, stableOf a = false →
+      wasSet (setHeuristics (optionNames.foldl (fillStore ⟨false⟩ parsed)
+        (defaultWithStyleEdition se))) a = false := by
+    intro a ha
+    rw [wasSet_setHeuristics]
+    unfold wasSet
+    rw [hfold a ha]
+    exact wasSet_default se a
+  unfold fillFromParsedConfig setVersion
+  simp only
+  rw [setMergeImports_eq, setAlias_of_not_set _ _ _ _ (hws _ hal.1)]
+  have hws2 : wasSet (setFnArgsLayout (setHeuristics (optionNames.foldl (fillStore ⟨false⟩ parsed)
+      (defaultWithStyleEdition se)))) "hide_parse_errors" = false := by
+    rw [setFnArgsLayout_eq, wasSet_setAlias]; exact hws _ hal.2.1
+  rw [setHideParseErrors_eq, setAlias_of_not_set _ _ _ _ hws2]
+  have hk1 : k ∉ ["fn_args_layout", "fn_params_layout"] := by
+    intro h
+    simp only [List.mem_cons, List.not_mem_nil, or_false] at h
+    rcases h with rfl | rfl
+    · rw [hal.2.2.1] at hk; cases hk
+    · rw [hal.2.2.2] at hk; cases hk
+  rw [local_setFnArgsLayout.1 _ k hk1, getE_setHeuristics_of_not_width _ _ hkw, hfold k hk]
+
+example : stableOf "brace_style" = false ∧
+    (getE (fillFromParsedConfig ⟨false⟩ (defaultWithStyleEdition .e2015)
+      [("brace_style", .str "AlwaysNextLine"), ("merge_imports", .bool true), ("max_width", .nat 80)])
+      "max_width").val = .nat 80 := by decide +kernel
+
+/-- A quirk of the stable channel: `style_edition = "2027"` (an unstable variant) in a file is not
+stored (`was_set` stays false) but still SELECTS the defaults — `to_parsed_config` looks at the
+parsed value before `is_stable_option_and_value` is asked —, so the configuration gets the 2024
+defaults (`style_edition = 2024`, `version = Two`). -/
+theorem unstable_variant_still_selects_defaults :
+    (fromToml ⟨false⟩ [("style_edition", .str "2027")] none none none).map
+      (fun c => ((getE c "style_edition").val, wasSet c "style_edition", (getE c "version").val))
+      = some (.str "2024", false, .str "Two") := by decide +kernel
+
 end RF.Props.C14
